@@ -1160,3 +1160,43 @@ def validate_create_tabulation(run, n=60):
         tf._create_pair_objects, tf.Potential_Form_Registry, tf.Modifier_Registry, tf.Reference_Data, tf.Pair_Potentials_From_Tuples_Builder = saved
         logging.disable(logging.NOTSET)
     return len(cases)
+
+
+def validate_raw_parser(run, files, n=60):
+    """the regenerated _RawConfigParser.has_option (+ _own_option, optionxform) against the real parser on generated files: for every section and `[Variables]`, the keys
+    of the file as written and with blanks / tabs moved around, keys of OTHER sections and of `[Variables]` asked of each section (a variable is not an option of another
+    section), unknown sections.  `files`: [(text, lines)] as the C14 / C15 generators produce them"""
+    import atsim.potentials.config
+    from atsim.potentials.config import ConfigParser
+    ok, log = build_gen()
+    if not ok:
+        run.tie_broken("translator", "Gen/Logic.lean (raw parser)", "the regenerated definitions (or their driver) do not build: " + log[-600:])
+        return 0
+    rng = run.rng
+    files = files[:n]
+    plans, reqs = [], []
+    for text, lines, secs in files:
+        keys = [(s, k) for s, kvs in secs.items() for k, v in kvs]
+        qs = []
+        for s in list(secs.keys()) + ["Variables", "Nope", ""]:
+            for (s2, k) in keys:
+                if s2 == s or rng.random() < 0.25:
+                    qs.append([s, k])
+                    if rng.random() < 0.5:
+                        qs.append([s, " " + k.replace("-", " -\t") + "\t"])
+        plans.append((text, qs))
+        reqs.append(dict(op="raw_has_option", lines=lines, queries=qs))
+    bad = 0
+    for (text, qs), a in zip(plans, query_gen(reqs)):
+        raw = ConfigParser(io.StringIO(text)).raw_config_parser
+        real_has = [bool(raw.has_option(s, k)) for s, k in qs]
+        real_x = [raw.optionxform(k) for s, k in qs]
+        run.traces += 1
+        run.dist["translator-validation/raw_has_option"] += 1
+        if a.get("has") != real_has or a.get("xform") != real_x:
+            bad += 1
+            if bad <= 2:
+                diff = [(q, r_, g_) for q, r_, g_ in zip(qs, real_has, a.get("has") or []) if r_ != g_][:4]
+                dx = [(q[1], r_, g_) for q, r_, g_ in zip(qs, real_x, a.get("xform") or []) if r_ != g_][:4]
+                run.tie_broken("translator", "generated _RawConfigParser.has_option / optionxform vs the real parser", "file %r: has_option differs on %s, optionxform on %s" % (text[:300], diff, dx))
+    return len(plans)
